@@ -6,6 +6,7 @@ import LzmaVerif.Model.Lzma2
 import LzmaVerif.Model.Lzma2Check
 import LzmaVerif.Model.Filters
 import LzmaVerif.Model.Xz
+import LzmaVerif.Model.XzStrict
 import LzmaVerif.Model.LzipFile
 import LzmaVerif.Model.Split
 import LzmaVerif.Model.BcjStream
@@ -143,7 +144,13 @@ def handleFilter (cmd : String) (a : Args) : String :=
 def handleContainer (cmd : String) (a : Args) : String :=
   match a.bytes? "in", a.nat? "cap" with
   | some inp, some cap =>
-    if cmd == "xz.dec" then
+    if cmd == "xz.strict" then
+      -- the strict format decoder (what liblzma enforces); `verdict=1`: only accept / reject
+      match XzStrict.decodeStrict inp cap with
+      | .ok data consumed _ => if a.nat? "verdict" == some 1 then "ok" else s!"ok {data.length} {fnv data} {consumed}"
+      | .err e => if a.nat? "verdict" == some 1 then "err" else s!"err {e.name}"
+      | .capped => "capped"
+    else if cmd == "xz.dec" then
       match Xz.decode (a.nat? "multi" == some 1) inp cap with
       | .ok data consumed blks =>
         let re := if a.nat? "reenc" == some 1 then
@@ -246,7 +253,7 @@ def handle (cmd : String) (a : Args) : String :=
   | "opts.validate" => handleOpts a
   | "bcj.wstream" | "bcj.rstream" => handleBcjStream cmd a
   | "mem.enc" | "mem.lzmadec" | "mem.lzma2dec" => handleMem cmd a
-  | "xz.dec" | "lzip.dec" => handleContainer cmd a
+  | "xz.dec" | "xz.strict" | "lzip.dec" => handleContainer cmd a
   | "bcj.code" | "bcj.step" | "delta.enc" | "delta.dec" => handleFilter cmd a
   | "lzma2.dec" => handleLzma2Dec a
   | "lzma.dec" => handleLzmaDec a
